@@ -366,7 +366,7 @@ def custom(ctx):
 
 
 PARTS = {
-    "C18": dict(coq_props=["Properties_C18_oom"], files=FILES, custom=custom, oracles=ORACLES,
+    "C18": dict(coq_props=["Properties_C18_oom", "Properties_C18_sites"], files=FILES, custom=custom, oracles=ORACLES,
                 configs_quick=["oom"], configs_thorough=["oom"],
                 rule="fault enumeration on the C side + proof on the skeleton side: every allocating API of "
                      "dict/PFOR/float/adaptive/bitmap is run on several input shapes per allocation site (small/large "
